@@ -386,16 +386,33 @@ func c11EndToEnd(c *Ctx, r *Rng) {
 			runIn(dir, nil, "git", "config", "-f", ".lfsconfig", kv[0], v)
 			desc = append(desc, kv[0])
 		}
-		loc := Pick(r, []string{"worktree", "index", "head"})
+		loc := Pick(r, []string{"worktree", "index", "head", "head", "head+index", "bare"})
+		rundir := dir
 		if loc != "worktree" {
 			runIn(dir, nil, "git", "add", ".lfsconfig")
-			if loc == "head" {
+			if loc != "index" {
 				runIn(dir, nil, "git", "commit", "-qm", "cfg")
 			}
+			if loc == "head" {
+				// only HEAD holds it: neither the working tree nor the index
+				runIn(dir, nil, "git", "rm", "-q", "--cached", ".lfsconfig")
+			}
 			os.Remove(filepath.Join(dir, ".lfsconfig"))
+			if loc == "bare" {
+				// a bare repository has neither working tree nor index: the baseline is its own `git lfs env`
+				// with the file's keys absent, i.e. the bare clone of the commit BEFORE the file was added
+				rundir = filepath.Join(c.Work, fmt.Sprintf("e2e%d.git", i))
+				runIn(c.Work, nil, "git", "clone", "-q", "--bare", dir, rundir)
+				runIn(rundir, nil, "git", "remote", "set-url", "origin", "http://good.example/repo")
+				runIn(rundir, nil, "git", "remote", "add", "a.b", "http://good.example/ab")
+				runIn(rundir, nil, "git", "update-ref", "refs/heads/clean", "HEAD~1")
+				runIn(rundir, nil, "git", "symbolic-ref", "HEAD", "refs/heads/clean")
+				base, _ = runIn(rundir, nil, c.Lfs, "env")
+				runIn(rundir, nil, "git", "symbolic-ref", "HEAD", "refs/heads/master")
+			}
 		}
-		got, _ := runIn(dir, nil, c.Lfs, "env")
-		cleanOut, code := runInStdin(dir, "hello world\n", c.Lfs, "clean", "x.bin")
+		got, _ := runIn(rundir, nil, c.Lfs, "env")
+		cleanOut, code := runInStdin(rundir, "hello world\n", c.Lfs, "clean", "x.bin")
 		caseDesc := fmt.Sprintf("e2e location=%s keys=%s", loc, strings.Join(desc, ","))
 		c.R.Eval(caseDesc, true)
 		c.R.Count("e2e." + loc)
@@ -409,6 +426,9 @@ func c11EndToEnd(c *Ctx, r *Rng) {
 			c.R.Add(Finding{Kind: "oracle", What: "end-to-end: with this .lfsconfig `git lfs clean` no longer works: " + strings.Join(desc, ","), Case: caseDesc, Impl: clip(cleanOut, 300)})
 		}
 		os.RemoveAll(dir)
+		if rundir != dir {
+			os.RemoveAll(rundir)
+		}
 	}
 }
 
